@@ -1,6 +1,6 @@
 (* C15 - every explanation is a checkable derivation and every derived fact has one.
    Property theorems only; proofs in Prov/ProofTreeProofs.v, Prov/ExplainProofs.v,
-   Prov/ExistsProofs.v and Prov/NegGroundProofs.v.
+   Prov/ExistsProofs.v, Prov/NegGroundProofs.v and Prov/ProofIdProofs.v.
 
    Objects (no proofs in the model files):
    - Prov/ProofTree.v: proof trees (pnode) as provenance.ProofNode reports them, and the
@@ -8,11 +8,12 @@
      proof the Go code returns;
    - Prov/ProofTreeProofs.v: `valid`, the declarative reading of "valid derivation";
    - Prov/Explain.v: the reference explainer explain_ref (bottom-up, rank = round of
-     first derivation). *)
+     first derivation);
+   - Prov/ProofId.v: the content-addressed identifiers (not run against the Go code). *)
 From Coq Require Import List ZArith Bool Lia.
 From MV Require Import Datalog.Syntax Datalog.Interp Datalog.Solve Datalog.SolveProofs Datalog.SemiNaive
   Datalog.Lfp Datalog.Strata Datalog.StrataProofs Prov.ProofTree Prov.ProofTreeProofs Prov.Explain
-  Prov.ExplainProofs Prov.ExistsProofs Prov.NegGroundProofs.
+  Prov.ExplainProofs Prov.ExistsProofs Prov.NegGroundProofs Prov.ProofId Prov.ProofIdProofs.
 From MV Require Run.C15.
 Import ListNotations.
 Open Scope Z_scope.
@@ -343,3 +344,57 @@ Example wrong_binding_rejected :
   check_proof f9_prog f9_base f9_store (1, [CNum 1])
     (PDerived 1 [(1, CNum 2)] (1, [CNum 1]) false [PLeaf (0, [CNum 1])]) = false.
 Proof. vm_compute. reflexivity. Qed.
+
+(* ---- 4. identifiers (Prov/ProofId.v: node_id H show rid, for every hash H, fact
+   printing show and rule identifier rid). The identifier of a rule node is a function of
+   the rule, the fact and the identifiers of the sub-proofs: bindings, the Partial flag
+   and everything of the sub-proofs beyond their identifiers do not enter. *)
+Theorem proof_id_functional : forall (H : list Z -> list Z) (show : fact -> list Z) (rid : nat -> list Z)
+    (ri : nat) (f : fact) (bs bs' : subst) (pa pa' : bool) (prems prems' : list pnode),
+  map (node_id H show rid) prems = map (node_id H show rid) prems' ->
+  node_id H show rid (PDerived ri bs f pa prems) = node_id H show rid (PDerived ri bs' f pa' prems').
+Proof. exact node_id_local. Qed.
+Print Assumptions proof_id_functional.
+
+(* hence of the content of the whole tree (erase = the tree without bindings and flags;
+   this is the "content" the correspondence check groups the Go identifiers by) *)
+Theorem proof_id_content : forall (H : list Z -> list Z) (show : fact -> list Z) (rid : nat -> list Z)
+    (n m : pnode),
+  erase n = erase m -> node_id H show rid n = node_id H show rid m.
+Proof. exact node_id_content. Qed.
+Print Assumptions proof_id_content.
+
+(* the bytes given to the hash determine the parts: "<len>:<part>\n" is an injective framing *)
+Theorem proof_id_frame_injective : forall (ps qs : list (list Z)), frame ps = frame qs -> ps = qs.
+Proof. exact frame_inj. Qed.
+Print Assumptions proof_id_frame_injective.
+
+(* so different contents can only get one identifier through a collision of the hash:
+   with an injective H (and injective printing of facts and rules), equal identifiers of
+   trees without placeholders mean equal content *)
+Theorem proof_id_injective : forall (H : list Z -> list Z) (show : fact -> list Z) (rid : nat -> list Z),
+  (forall x y, H x = H y -> x = y) -> (forall f g, show f = show g -> f = g) ->
+  (forall i j, rid i = rid j -> i = j) ->
+  forall n, modelled n = true -> forall m, modelled m = true ->
+  node_id H show rid n = node_id H show rid m -> erase n = erase m.
+Proof. exact node_id_inj. Qed.
+Print Assumptions proof_id_injective.
+
+(* the hypotheses are satisfiable (identity as hash, a prefix code as printing), and the
+   framing matters: without it ["ab";"c"] and ["a";"bc"] would be hashed from the same bytes *)
+Example ex_id_hyps :
+  (forall x y : list Z, (fun b => b) x = (fun b => b) y -> x = y) /\
+  (forall f g, enc_fact f = enc_fact g -> f = g) /\
+  (forall i j, (fun k => [Z.of_nat k]) i = (fun k => [Z.of_nat k]) j -> i = j).
+Proof.
+  split; [auto|]. split; [exact enc_fact_inj|]. intros i j E. injection E as E. apply Nat2Z.inj. exact E.
+Qed.
+
+Example ex_id_differs :
+  node_id (fun b => b) enc_fact (fun k => [Z.of_nat k])
+    (PDerived 1 [(1, CNum 1)] (1, [CNum 1]) false [PLeaf (0, [CNum 1])]) <>
+  node_id (fun b => b) enc_fact (fun k => [Z.of_nat k])
+    (PDerived 0 [(1, CNum 1)] (1, [CNum 1]) false [PLeaf (0, [CNum 1])]) /\
+  frame [[97; 98]; [99]] <> frame [[97]; [98; 99]] /\
+  concat [[97; 98]; [99]] = concat [[97]; [98; 99]].
+Proof. vm_compute. repeat split; discriminate. Qed.
